@@ -152,6 +152,19 @@ CLAIMED = {
         note="Trusted: pyvc, z3 (polynomial reals), ghost contracts: block = direct sum, tensordot+fuse_legs = product (tensor level: C01, C03), contraction multilinear. Complex amplitudes not modelled. NOT decided: measure_overlap/measure_mpo, zipper, compression, product states, mps_from_tensor represent the dense object (Env2, floating point).",
         technique='symbolic execution of the real MPS algebra on ghost tensors; state equality as real-scalar VC + structural comparison',
     ),
+    'C07': dict(
+        category='proof',
+        text=("SIGN and PLACEMENT machinery only. _parse_2site_bonds returns exactly the documented pair sets for every pattern string "
+              "(exhaustive, N = 2..7). The real measure_2site and measure_nsite are interpreted against a ghost two-layer environment deriving from "
+              "the real Env2 (its shallow_copy / measure and EnvParent.setup_/update_env_ are interpreted): one result per requested pair; each is "
+              "measured from environments holding O at i, P at j and plain transfer matrices elsewhere, every site exactly once, the smaller site "
+              "inserted going to 'last' and the larger going to 'first'; i < j carries no sign, i > j is corrected by swap_charges([O.n],[P.n]), "
+              "i = j inserts the product O.P once; per-site operator dictionaries skip missing sites; measure_nsite multiplies repeated sites in the "
+              "given order and carries sign_canonical_order. sign_canonical_order / swap_charges obligations shared with C05."),
+        design_ref='DESIGN.md §5 C07',
+        note="Trusted: pyvc, the documented convention of Env2.update_env_op_ (its swap-gate contractions are not verified). NOT decided: generate_mpo/Generator/latex2term produce the Jordan-Wigner MPO (SVD compression as a whole), measure_1site, rdm, sampling, dense equality of any expectation value, on-site (anti)commutators of operator families.",
+        technique='symbolic execution of the real measurement drivers against ghost-environment (operator placement) contracts; finite exhaustive check of the bond-pattern parser',
+    ),
     'C08': dict(
         category='proof',
         text=("BOOKKEEPING clauses. The real orthogonalize_site_, diagonalize_central_, absorb_central_, canonize_, truncate_, norm (and "
